@@ -105,7 +105,6 @@ fn c13_psk_secret_0() {
     let r = PskSecret::calculate(&[], &p);
     assert!(r.is_ok());
     let s = r.ok().unwrap();
-    kani::cover!(true);
     assert!(p.calls() == 0);
     assert!(is_out(&s, 0, NH)); // psk_secret_[0] = 0
     // PskSecret::new is the same all-zero value
@@ -132,8 +131,6 @@ fn c13_psk_secret_1_bounded_2() {
                 let r = PskSecret::calculate(&input, &p);
                 assert!(r.is_ok());
                 let s = r.ok().unwrap();
-                kani::cover!(resumption && id.len() == 2 && nonce.len() == 2);
-                kani::cover!(!resumption && id.is_empty() && nonce.is_empty());
                 assert!(p.calls() == 3);
                 check_step(&p, 0, 1, &a, &[0u8; NH]);
                 assert!(is_out(&s, 3, NH));
@@ -157,8 +154,6 @@ fn c13_psk_secret_2_bounded_1() {
             let r = PskSecret::calculate(&input, &p);
             assert!(r.is_ok());
             let s = r.ok().unwrap();
-            kani::cover!(!ra && rb);
-            kani::cover!(ra && !rb);
             assert!(p.calls() == 6);
             check_step(&p, 0, 2, &a, &[0u8; NH]);
             check_step(&p, 1, 2, &b, &out(3, NH));
@@ -178,8 +173,6 @@ fn c13_psk_secret_provider_error() {
     let p = GhostProvider::failing_at(at);
     let input = [small_input(false), small_input(true)];
     let r = PskSecret::calculate(&input, &p);
-    kani::cover!(at == 5);
-    kani::cover!(at == 0);
     assert!(is_provider_error(&r));
     assert!(p.calls() == at + 1);
     core::mem::forget((r, input));
@@ -205,8 +198,6 @@ fn c18_psk_order_bounded_1() {
             let r2 = PskSecret::calculate(&ba, &q);
             assert!(r1.is_ok() && r2.is_ok());
             let same = p.same_trace(&q);
-            kani::cover!(same);
-            kani::cover!(!same);
             if same {
                 assert!(a.id == b.id);
                 assert!(bytes_eq(a.psk.raw_value(), b.psk.raw_value()));
@@ -242,8 +233,6 @@ fn c18_psk_label_injective_bounded_1() {
                             let (la, lb) = (la.ok().unwrap(), lb.ok().unwrap());
                             assert!(bytes_eq(&la, &rfc_psk_label(&ia, xa, ca)));
                             let same = bytes_eq(&la, &lb);
-                            kani::cover!(same);
-                            kani::cover!(!same && ra != rb);
                             if same {
                                 assert!(ia == ib && xa == xb && ca == cb);
                             }
